@@ -26,13 +26,14 @@ import (
 
 const ruleText = "audit streams rendered from the record shapes of processors/auditd/testdata: compound kernel events (SYSCALL [EXECVE] CWD PATH{1,2} PROCTITLE [EOE]; also EOE-only, PROCTITLE-only and unterminated ones) and single-record events (LOGIN, USER_*, CRED_*, SERVICE_START); blocks of 1-3 kernel events whose records are merged in a random order that keeps each event's own order; empty lines anywhere; " +
 	"level 1 modes: clean, badline (garbage / truncated header / no msg= / unknown type / non-numeric sequence / no type= at a random position), faults (the Auditor fails at 1-3 random call indices), after (After filter inside the stream), smallmax (maxInFlight 1-2: overflow eviction), unterminated (+Maintain calls), late (a record after its event's terminator), expiry (60ms timeout, 150ms pauses, Maintain), gaps (sequence gaps, later event with lower number); " +
-	"level 2 modes on Auditd.Read: clean, badline, writefail (budget k for every k below the session's event count, drawn at random), latelogin-writefail, badlogin (pid 0 / empty credential / nil source), badpid (LOGIN record whose pid is not a number); " +
+	"level 2 modes on Auditd.Read: clean, badline, writefail (budget k for every k below the session's event count, drawn at random), latelogin-writefail, writefail-once (exactly one write is rejected, at the session's first event half of the time; judged by the oracle only), badlogin (pid 0 / empty credential / nil source), badpid (LOGIN record whose pid is not a number); " +
 	"non-trivial = at least two events interleaved or a fault injected; distinct by the concrete item list"
 
 func main() {
 	out := flag.String("out", "", "output directory")
 	n := flag.Int("n", 150, "number of cases")
 	replay := flag.String("replay", "", "replay file")
+	mode := flag.String("mode", "", "realtime: the C16 real-time scenarios (about 135 s)")
 	flag.Parse()
 	auditd.SetLogger(zap.NewNop().Sugar())
 	if msg := checkConstants(); msg != "" {
@@ -43,6 +44,10 @@ func main() {
 		os.Exit(doReplay(*replay))
 	}
 	seed := hutil.SeedFromEnv()
+	if *mode == "realtime" {
+		realtimeMain(*out, seed, 1)
+		return
+	}
 	r := hutil.NewRand(seed ^ 0xC15)
 	sum := hutil.NewSummary("C15", seed, ruleText)
 	sum.Notes = append(sum.Notes, fmt.Sprintf("processor constants: maxEventsInFlight=%d eventTimeout=%s reassemblerInterval=%s",
@@ -168,6 +173,11 @@ func runCase(c *Case, sum *hutil.Summary, cases *hutil.CaseFile, i int) {
 		}
 		sum.FailKey(kind, f.key, f.what, map[string]any{"case": c, "observed": o})
 	}
+	if c.Transient {
+		// the model's writer fails for good once its budget is used up; a one-off failure is judged by the oracle only
+		sum.Dist("l2_transient_oracle_only")
+		return
+	}
 	term, bad := coqCase2(c, o)
 	if bad != "" {
 		sum.FailKey("harness", "uninterpretable", bad, map[string]any{"case": c, "observed": o})
@@ -187,13 +197,17 @@ func doReplay(path string) int {
 	}
 	var rp struct {
 		Replay struct {
-			Case  *Case          `json:"case"`
-			Gated *gatedScenario `json:"gated"`
+			Case     *Case          `json:"case"`
+			Gated    *gatedScenario `json:"gated"`
+			Realtime *rtScenario    `json:"realtime"`
 		} `json:"replay"`
 	}
 	if err := json.Unmarshal(raw, &rp); err != nil {
 		fmt.Println("bad replay:", err)
 		return 2
+	}
+	if rp.Replay.Realtime != nil {
+		return replayRealtime(*rp.Replay.Realtime)
 	}
 	if rp.Replay.Gated != nil {
 		key, what := runGated(*rp.Replay.Gated)
